@@ -141,14 +141,28 @@ CLAIMED = {
              "where a preset is restructured the verdict is bounded to the expanded layouts. The Fock-space matrix of the polynomial is C05/C03. Two genuine defects repaired (D12 documentation, D15).",
         technique="summary extraction over clang AST (custom libTooling extractor) + abstract interpretation of the summaries over a small value domain (symbolic amplitudes) + exact polynomial comparison (sympy) against the documented operators",
         ref="DESIGN.md §3 C04"),
+    "C08": dict(
+        text="Structural clauses only. The partition enters every later stage through the classification of states, the block-to-block bimaps of the field operators and the stripe selections built from them. Re-evaluated under C08's rule ids: "
+             "(R1) each Fock state classified exactly once, addresses round-trip, integrals of motion accepted only after commuting with H and every n_i; (R2) one operator part per right block with an image block and no further filter "
+             "(e.g. on coinciding blocks, which only occur under coarser partitions), c/c+/c+c built alike, annihilation part = adjoint for every block pair; (R3) G, chi, the two-particle function and <c+c> create a part for every "
+             "pair/chain of connected blocks and bind it to exactly those blocks' data; (R4) eigenstate numbers and Fock positions are never confused inside a block.",
+        note="The statement itself is relational (two executions with different partitions agree numerically) and is NOT decided; each rule is a necessary condition whose violation changes the observables for some partition while the default "
+             "partition used by the tests is unaffected. The rules are the ones of C07, C10, C01, C14, C02, C09 evaluated at the anchored mechanisms.",
+        technique="composition of pairing/dominance, sibling-agreement, index-space typing and walk rules over clang AST+CFG at the bimap and stripe-selection sites",
+        ref="DESIGN.md §5, §8.7"),
+    "C12": dict(
+        text="Structural clauses only, at the two anchored mechanisms: (R1) Vertex4::value == chi + [n1=n3] beta G13(n1) G24(n2) - [n2=n3] beta G14(n1) G23(n2) and the storage is filled from the same formula; (R2) the two-particle multi-term: "
+             "poles and six coefficients, evaluation of non-resonant and resonant terms incl. the delta-branch decision, merging of like terms with pre-merge weights, frequency-table path == on-demand path; (R3) G is the plain sum over "
+             "parts and terms of R/(z-P) with the Lehmann residue and pole.",
+        note="G = (z-h)^{-1} and the vanishing of the vertex for quadratic Hamiltonians are identities between computed values and are NOT decided. Quadratic models have the most degenerate spectra, so these formula sites (resonant "
+             "branches, merges, coinciding-frequency terms) are exactly where a slip breaks Wick's theorem without affecting the interacting test models.",
+        technique="sympy normal-form comparison of the formula sites (rules of C15, C02, C01, C11 re-evaluated under C12's ids)",
+        ref="DESIGN.md §5, §8.7"),
 }
 
 NOT_YET = {}
 
-NA = {
-    "C08": "relational property between two executions that differ in a runtime choice (the accepted set of integrals of motion); no single-program shape expresses it. Its structural ingredients are claimed under C07, C01, C02, C09, C10, C14.",
-    "C12": "a mathematical identity between computed values for quadratic Hamiltonians; both anchored mechanisms are decided structurally under C15 (Vertex4::value) and C02 (addMultiterm); nothing else in the statement is visible in the shape of the code.",
-}
+NA = {}
 
 
 def main():
